@@ -126,7 +126,7 @@ theorem working_not_two {s : Script} {c : Cfg} (hi : Inv s c) (t u : Nat) (htu :
 
 /-- outside the critical section nobody works after a step of a thread that was not about to enter -/
 theorem step_not_working (s : Script) (t : Nat) (c : Cfg)
-    (h : match (c.th t).pc with | .idle | .skp | .resv _ | .pre _ _ | .chk _ _ | .dead _ _ => True | _ => False) :
+    (h : match (c.th t).pc with | .idle | .skp | .resv _ | .pre _ _ | .chk _ _ | .unw _ _ | .dead _ _ => True | _ => False) :
     ((step s t c).th t).pc.working = false := by
   unfold step
   generalize hx : c.th t = x at h
@@ -145,6 +145,7 @@ theorem step_not_working (s : Script) (t : Nat) (c : Cfg)
   · simp only; split
     · simp only [setTh_th_same]; exact hret _ _ _
     · simp [setTh, Pc.working]
+  · simp [setTh, Pc.working]
   · simp [hx, Pc.working]
 
 /-- a dead protocol stays dead while nobody is in the critical section -/
@@ -190,25 +191,30 @@ theorem deadT_step {s : Script} {c : Cfg} (hi : Inv s c) (hd : DeadT c) (hall : 
 
 /-- steps of a thread that is outside the critical section and not about to enter it -/
 theorem hinv_quiet {s : Script} {h : HCfg} (hi : Inv s h.core) (hv : HInv h) (t : Nat)
-    (hq : match (h.core.th t).pc with | .idle | .skp | .resv _ | .pre _ _ | .chk _ _ | .dead _ _ => True | _ => False) :
+    (hq : match (h.core.th t).pc with | .idle | .skp | .resv _ | .pre _ _ | .chk _ _ | .unw _ _ | .dead _ _ => True | _ => False) :
     HInv { h with core := step s t h.core, clk := setClk h t ((h.clk t).tick t) } := by
   have hoth := fun u (hu : u ≠ t) => step_th_other s t u h.core hu
   refine hinv_update hv t _ _ _ _ hoth (fun _ _ _ => rfl) ?_ ?_
   · intro hw; rw [step_not_working s t h.core hq] at hw; exact absurd hw (by simp)
   · intro hall
-    by_cases hd : ∃ b n, (h.core.th t).pc = .dead b n
-    · obtain ⟨b, n, hd⟩ := hd
-      have : (step s t h.core).th t = h.core.th t := by
-        unfold step; simp [hd]
-      have := hall t
-      simp [‹(step s t h.core).th t = h.core.th t›, hd, Pc.inCS] at this
+    by_cases hd : ∃ b n, (h.core.th t).pc = .dead b n ∨ (h.core.th t).pc = .unw b n
+    · obtain ⟨b, n, hd | hd⟩ := hd
+      · have h1 : (step s t h.core).th t = h.core.th t := by
+          unfold step; simp [hd]
+        have := hall t
+        simp [h1, hd, Pc.inCS] at this
+      · have h1 : ((step s t h.core).th t).pc = .dead b n := by
+          unfold step; simp [hd, setTh]
+        have := hall t
+        simp [h1, Pc.inCS] at this
     · have hall0 : ∀ u, (h.core.th u).pc.inCS = false := by
         intro u
         by_cases hu : u = t
         · subst hu
           generalize (h.core.th u).pc = pc at hq hd
           cases pc <;> simp [Pc.inCS] at hq ⊢
-          exact absurd ⟨_, _, rfl⟩ hd
+          · exact absurd ⟨_, _, Or.inr rfl⟩ hd
+          · exact absurd ⟨_, _, Or.inl rfl⟩ hd
         · rw [← hoth u hu]; exact hall u
       rcases hv.outside hall0 with hle | hdead
       · exact Or.inl hle
@@ -277,6 +283,7 @@ theorem hstep_inv (o : Ords) (hacq : o.yLoad.isAcq = true) (hrel : o.yFaa.isRel 
   | resv r => exact hinv_quiet hi hv t (by simp [hpc])
   | pre r b => exact hinv_quiet hi hv t (by simp [hpc])
   | chk r b => exact hinv_quiet hi hv t (by simp [hpc])
+  | unw b n => exact hinv_quiet hi hv t (by simp [hpc])
   | dead b n => exact hinv_quiet hi hv t (by simp [hpc])
   | cs r b acc =>
     simp only
